@@ -241,7 +241,8 @@ def run(ctx):
     R.check("C18.4", "PROV", fi_loop, "handle_command(own peer_no, command, parsed payload)",
             len(hc) == 1 and tm.veq(hc[0][1][1], peer) and tm.veq(hc[0][1][2], cmd) and tm.veq(hc[0][1][3], parsed), "handle_command receives %s" % ([tm.show(a)[:80] for a in hc[0][1]] if hc else None))
     reg = T("attr", (self_, "_registered_commands_to_handle"))
-    okx = bool(hc) and bool(apps) and any(tm.veq(g, tm.cmp("in", cmd, reg)) for g in hc[0][4]) and any(tm.veq(g, tm.cmp("notin", cmd, reg)) for g in apps[0][4])
+    okx = bool(hc) and bool(apps) and any(tm.veq(g, tm.cmp("in", cmd, reg)) for g in list(hc[0][4]) + list(hc[0][5])) and \
+        any(tm.veq(g, tm.cmp("notin", cmd, reg)) for g in list(apps[0][4]) + list(apps[0][5]))
     R.check("C18.4", "PROV", fi_loop, "handled inline iff the command is registered, else enqueued", okx, "dispatch / enqueue are not exclusive on `command in registered`")
     rc = [c for c in s.calls if c[0] == "bits.p2p.recv_msg"]
     R.check("C18.4", "PROV", fi_loop, "messages are read from the thread's own socket", len(rc) == 1 and tm.veq(rc[0][1][0], sock), "recv_msg reads from %s" % (tm.show(rc[0][1][0])[:80] if rc else None))
@@ -253,10 +254,10 @@ def run(ctx):
     disp = [c for c in sh.calls if c[0].startswith("value:") and tm.veq(tm.freeze(c[1]), tm.freeze([peer, cmdp, payp]))]
     ga = [c for c in sh.calls if c[0] == "builtins.getattr" and tm.veq(c[1][0], self_) and tm.veq(c[1][1], name_t)]
     R.check("C18.4", "PROV", fh, "dispatch to handle_<command>_command(peer_no, command, payload)", bool(disp) and bool(ga), "handle_command dispatch differs")
-    evh = ctx.evaluator(opaque={"bits.p2p.msg_ser", "bits.p2p.ping_payload"})
+    evh = ctx.evaluator(opaque={"bits.p2p.msg_ser"})
     magic = T("global", ("bits.p2p.MAGIC_START_BYTES",), tm.NONE)
     for hname, want_msg, what in (("handle_version_command", lambda: tm.app("bits.p2p.msg_ser", [magic_term(ev), b"verack", b""], ty=tm.BYTES), "verack"),
-                                  ("handle_ping_command", lambda: tm.app("bits.p2p.msg_ser", [magic_term(ev), b"pong", tm.app("bits.p2p.ping_payload", [T("field", (payp, "nonce"))], ty=tm.BYTES)], ty=tm.BYTES), "pong with the ping's nonce")):
+                                  ("handle_ping_command", lambda: tm.app("bits.p2p.msg_ser", [magic_term(ev), b"pong", tm.i2b(T("field", (payp, "nonce")), 8, "little")], ty=tm.BYTES), "pong with the ping's nonce (8 bytes LE)")):
         fhh = ctx.fn("bits.p2p.Node." + hname)
         shh = evh.run(fhh)
         sends = [c for c in shh.calls if c[0] == "io:sendall"]
